@@ -4854,7 +4854,10 @@ func (p *printer) printStmt(stmt js_ast.Stmt, flags printStmtFlags) {
 		p.addSourceMapping(stmt.Loc)
 		p.printIndent()
 		p.printSpaceBeforeIdentifier()
-		p.printQuotedUTF16(s.Value, 0)
+
+		// Directives must not be wrapped with line continuations, since a string
+		// containing an escape sequence or line continuation is not a directive
+		p.printQuotedUTF16(s.Value, printQuotedNoWrap)
 		p.printSemicolonAfterStatement()
 
 	case *js_ast.SBreak:
